@@ -32,7 +32,8 @@ ASSUMPTIONS = ["dt >= dt_min (the user-chosen first trial is not a controller pr
                "library on a blown-up explicit step is counted separately and not charged to the property",
                "logical termination bound 3*(T/dt_min)+100 trials; the wall-clock watchdog only yields 'inconclusive'"]
 REQUIRED_COUNTERS = ["trials", "rejected", "accepted", "dt_min_clamped_trials", "injected_cases", "natural_cases",
-                     "error_recomputed", "interpolated_outputs", "float32_cases", "clipped_final_trials", "grad_enabled_runs"]
+                     "error_recomputed", "interpolated_outputs", "float32_cases", "clipped_final_trials", "grad_enabled_runs",
+                     "extra_state_solver_runs"]
 THRESHOLDS = {"error_recompute_rel": 1e-12}
 
 SOLVERS = [("ito", "euler", "additive"), ("ito", "milstein", "diagonal"), ("ito", "srk", "diagonal"),
@@ -40,7 +41,8 @@ SOLVERS = [("ito", "euler", "additive"), ("ito", "milstein", "diagonal"), ("ito"
            ("stratonovich", "midpoint", "diagonal"), ("stratonovich", "heun", "general"),
            ("stratonovich", "euler_heun", "scalar"), ("stratonovich", "milstein", "diagonal"),
            ("stratonovich", "log_ode", "general"), ("stratonovich", "reversible_heun", "additive"),
-           ("stratonovich", "midpoint", "general")]
+           ("stratonovich", "midpoint", "general"), ("stratonovich", "reversible_heun", "diagonal"),
+           ("stratonovich", "reversible_heun", "general"), ("stratonovich", "reversible_heun", "scalar")]
 
 
 class Stiff(nn.Module):
@@ -184,8 +186,20 @@ def run_case(case):
         viol.append({"mechanism": "trial_not_full_plus_two_halves",
                      "detail": f"{len(steps)} steps, {ntr} error estimates, {len(updates)} updates {ctx}"})
         return {"violations": viol, "counters": cnt}
-    if pr.grad_enabled_in_error:
-        viol.append({"mechanism": "error_control_with_grad_enabled", "detail": ctx})
+    # (observation, not a verdict: the property does not prescribe the autograd mode of the controller)
+    cnt["error_control_calls_with_grad_enabled"] = pr.grad_enabled_in_error
+
+    def same(x, y):
+        """the same value (an implementation is free to copy): identical object or equal tensors / tuples of tensors"""
+        if x is y:
+            return True
+        if torch.is_tensor(x) and torch.is_tensor(y):
+            return x.shape == y.shape and torch.equal(x, y)
+        if isinstance(x, (tuple, list)) and isinstance(y, (tuple, list)):
+            return len(x) == len(y) and all(same(p, q) for p, q in zip(x, y))
+        return False
+    extra_cur = steps[0]["extra0"] if steps else ()
+    cnt["extra_state_solver_runs"] = int(len(extra_cur) > 0)
     ulp = (1.2e-7 if dtype == torch.float32 else 2.3e-16) * max(1.0, abs(t0) + T)
     t_start, t_end = float(ts[0]), float(ts[-1])
     accepted = []  # (t0, t1, y0, y1)
@@ -198,7 +212,7 @@ def run_case(case):
         a, b = full["t0"], full["t1"]
         mid = 0.5 * (torch.as_tensor(full["t0_raw"]) + torch.as_tensor(full["t1_raw"]))
         ok_triple = (h1["t0"] == a and h2["t1"] == b and h1["t1"] == h2["t0"] == float(mid)
-                     and h2["y0"] is h1["y1"] and h1["y0"] is full["y0"])
+                     and same(h2["y0"], h1["y1"]) and same(h1["y0"], full["y0"]))
         if not ok_triple:
             viol.append({"mechanism": "trial_not_full_plus_two_halves",
                          "detail": f"trial {i}: full=({a},{b}) halves=({h1['t0']},{h1['t1']}),({h2['t0']},{h2['t1']}) {ctx}"})
@@ -206,6 +220,15 @@ def run_case(case):
         if a != cur:
             viol.append({"mechanism": "trial_starts_at_wrong_time",
                          "detail": f"trial {i} starts at {a!r}, expected {cur!r} {ctx}"})
+            break
+        # the solver's extra state is part of the state: every trial starts from the extra state of the last ACCEPTED
+        # step (a rejected trial leaves no trace), and the second half step continues from the first
+        if not (same(full["extra0"], extra_cur) and same(h1["extra0"], extra_cur) and same(h2["extra0"], h1["extra1"])):
+            viol.append({"mechanism": "extra_state_not_that_of_last_accepted_step",
+                         "detail": f"trial {i} (after {cnt.get('rejected', 0)} rejections) {ctx}"})
+            break
+        if accepted and not same(full["y0"], accepted[-1][3]):
+            viol.append({"mechanism": "trial_does_not_start_from_last_accepted_state", "detail": f"trial {i} {ctx}"})
             break
         if not (b > a and a >= t_start and b <= t_end):
             viol.append({"mechanism": "trial_outside_interval_or_not_advancing", "detail": f"trial {i}: ({a},{b}) {ctx}"})
@@ -224,7 +247,7 @@ def run_case(case):
                          "detail": f"trial {i}: length {length:.3e} < dt_min {dt_min:.3e} {ctx}"})
             break
         # error estimate: inputs are the trial's own outputs, value equals the independent recomputation
-        if not (e["y_full"] is full["y1"] and e["y_half"] is h2["y1"]):
+        if not (same(e["y_full"], full["y1"]) and same(e["y_half"], h2["y1"])):
             viol.append({"mechanism": "error_estimate_not_from_full_vs_two_half_steps", "detail": f"trial {i} {ctx}"})
             break
         ref = _ref_error(full["y1"].detach(), h2["y1"].detach(), rtol, atol)
@@ -264,6 +287,7 @@ def run_case(case):
             cnt["accepted"] = cnt.get("accepted", 0) + 1
             accepted.append((a, b, full["y0"], h2["y1"]))
             cur = b
+            extra_cur = h2["extra1"]
         else:
             cnt["rejected"] = cnt.get("rejected", 0) + 1
             # retried strictly shorter
